@@ -6,12 +6,14 @@
     pat.compile <time|date|offset> <patternHex> <culture> → ok <shape> | !invalidPattern
     pat.fmt <type> <patternHex> <culture> <value fields…>  → textHex | !dom | !<err>
     pat.parse <type> <patternHex> <culture> <textHex>       → ok fields… | fail | !dom | !<err>
+    pat.delim <type> <patternHex> <culture> → 1 | 0 (the theorem's `Delimited` criterion on the compiled steps) | - (not stepped)
        shape: S<used>/<number of steps>  |  Z(<shape>)  |  C(<shape>,<shape>,…)
     culture: `inv` or `c:` + hex of the U+001F-joined fields of `Culture` (lists comma-free: each list entry is
        its own field; 4+4+14*4+8*2+11 … see `decodeCulture`)
 -/
 import PyodaModel.Text.Compile
 import PyodaModel.Text.Buckets
+import PyodaModel.Text.Delimited
 
 namespace Pyoda.Text
 
@@ -125,6 +127,12 @@ def handlePat (toks : List String) : Option String :=
             | .error e => "!" ++ e.name
             | .ok none => "fail"
             | .ok (some v) => "ok " ++ showInts v)
+  | ["pat.delim", ty, p, cu] => do
+      let ty ← decodeType ty; let p ← decodeText' p; let cu ← decodeCulture cu
+      some (match compile ty cu p with
+        | .error e => "!" ++ e.name
+        | .ok (.stepped c) => if Delimited true c.steps then "1" else "0"
+        | .ok _ => "-")
   | _ => none
 
 end Pyoda.Text
